@@ -184,4 +184,47 @@ def restart (st : St) (now : Nat) : St :=
   let live : FMap Sess := fun k => (st.db k).filter (fun s => !decide (s.expire ≤ now32 now))
   { st with rl := st.rl.map (fun l => { l with recs := FMap.empty }), mem := live, db := live }
 
+
+/-! ### fallible writes to sessions.db
+
+`dbOK = false`: the write transaction cannot be made (`db.Begin(true)` or
+`Commit` fails: I/O error, full disk, read-only file system).  storeSession
+then returns false and removeSessionFromFile returns after logging — the
+in-memory map has already been changed.  `dbOK = true` is the model above. -/
+
+def evalLoginF (st : St) (rl : Option Limiter) (now addr : Nat) (good : Bool) (user : Nat) (dbOK : Bool) :
+    LoginRes × St :=
+  if good then
+    let tok := st.nextTok
+    let s : Sess := ⟨user, (now32 now + st.ttl) % u32⟩
+    (.ok tok, { st with rl := rl.map (·.remove addr), mem := st.mem.set tok s,
+                        db := if dbOK then st.db.set tok s else st.db,
+                        nextTok := tok + 1, evals := st.evals + 1 })
+  else
+    (.forbidden, { st with rl := rl.map (·.inc addr now), evals := st.evals + 1 })
+
+def handleLoginF (st : St) (now : Nat) (r : Req) (good : Bool) (user : Nat) (dbOK : Bool) : LoginRes × St :=
+  match st.rl with
+  | none => evalLoginF st none now (countAddr r) good user dbOK
+  | some l =>
+    let (left, l') := l.check (checkAddr r) now
+    if left > 0 then (.tooMany (left / nsPerSec), { st with rl := some l' })
+    else evalLoginF st (some l') now (countAddr r) good user dbOK
+
+def checkSessionF (st : St) (now tok : Nat) (dbOK : Bool) : CheckRes × St :=
+  match st.mem tok with
+  | none => (.notFound, st)
+  | some s =>
+    if s.expire ≤ now32 now then
+      (.expired, { st with mem := st.mem.erase tok, db := if dbOK then st.db.erase tok else st.db })
+    else
+      let newExpire := (now32 now + st.ttl) % u32
+      if s.expire / daySec ≠ newExpire / daySec then
+        let s' : Sess := { s with expire := newExpire }
+        (.ok, { st with mem := st.mem.set tok s', db := if dbOK then st.db.set tok s' else st.db })
+      else (.ok, st)
+
+def logoutF (st : St) (tok : Nat) (dbOK : Bool) : St :=
+  { st with mem := st.mem.erase tok, db := if dbOK then st.db.erase tok else st.db }
+
 end AGH.C12
